@@ -68,6 +68,13 @@ def generate(tier, rng):
                  "steps": [{"act": "Callback"}, {"act": "W", "key": "st.seek", "v": {"k": "abs", "x": 2}}] + [{"act": "Callback"}] * 10})
     scen.append({"mode": "handles", "scene": "T", "ring": 48, "len": 200, "src": "late-seek-after-decoding-ended",
                  "steps": [{"act": "Callback"}] * 40 + [{"act": "W", "key": "st.seek", "v": {"k": "abs", "x": 8}}] + [{"act": "Callback"}] * 16})
+    # ... again and again: every seek below is written after the decoder has (once more) decoded the last frame
+    cb = lambda n: [{"act": "Callback"}] * n
+    sk = lambda x: [{"act": "W", "key": "st.seek", "v": {"k": "abs", "x": x}}]
+    scen.append({"mode": "handles", "scene": "T", "ring": 48, "len": 100, "src": "late-seek-after-decoding-ended",
+                 "steps": cb(16) + sk(8) + cb(18) + sk(40) + cb(10) + sk(72) + cb(5)})
+    scen.append({"mode": "handles", "scene": "T", "ring": 48, "len": 60, "src": "late-seek-after-decoding-ended",
+                 "steps": cb(6) + sk(24) + cb(6) + sk(8) + sk(40) + cb(15)})
     # ... also when the decoder is slow to deliver what the late seek asks for and the ring runs dry meanwhile: the sound waits for
     # the audio (it has not reached its end), and the seek is heard once the decoder delivers
     for x, pre in ((8, 40), (24, 44), (96, 38)):
